@@ -70,6 +70,10 @@ def _case_h1(rng, tier, n, exhaustive_split=None):
             req["authority"] = names_case(req["authority"])
         if version == "1.1" and rng.random() < 0.06:
             req["absolute"] = rng.choice([b"http://", b"HTTP://", b"https://"])
+            if rng.random() < 0.4:
+                # ... with an empty path (the resource "/") and a query, which may itself contain a slash
+                req["abs_empty_path"] = True
+                req["query"] = b"hvtag=%d" % tag + rng.choice([b"", b"&x=1", b"&next=/home&y=%2F", b"&a=b/c?d"])
         if version == "1.1" and len(req["body"]) > 0 and rng.random() < 0.08:
             # an h2c upgrade offer on a request that carries a body is ignored by the server: the request is served as HTTP/1.1, body and all
             extra = [(b"Connection", b"Upgrade, HTTP2-Settings"), (b"Upgrade", b"h2c"), (b"HTTP2-Settings", b"AAMAAABkAAQAAP__")]
@@ -505,7 +509,7 @@ def check(case, obs, tally):
     # map instances to requests by the unique path tag
     by_tag = {}
     for inst, sc in starts.items():
-        m = re.match(rb"/+t(\d+)", sc.get("raw_path") or b"")
+        m = re.match(rb"/+t(\d+)", sc.get("raw_path") or b"") or re.match(rb"hvtag=(\d+)", sc.get("query_string") or b"")
         by_tag.setdefault(int(m.group(1)) if m else -1, []).append(inst)
     head_delivered = []
     for r in reqs:
